@@ -20,7 +20,7 @@ ASSUMPTIONS = [
     "for header names that differ only in case the oracle demands only that the highest-precedence value is among those sent",
     "httpx.AsyncClient is replaced by a subclass that injects httpx.MockTransport; no private attribute of the transport is touched",
 ]
-BOUND = {"quick": "820 plugin sequences x 3 defaults x 3 per-request header sets x 5 caller-argument sets x 2 bearer settings x 3 requests per transport = 223830 requests", "thorough": "7381 plugin sequences (length<=4) x 24"}
+BOUND = {"quick": "820 plugin sequences x 3 defaults x 3 per-request header sets x 5 caller-argument sets x 2 bearer settings x 3 requests per transport, sequences of >=2 plugins also as composites nested inside a composite (head / tail grouping) = 296730 requests", "thorough": "7381 plugin sequences (length<=4) x every transport configuration, flat and nested (head / tail) composites"}
 CHUNK = 4
 
 PLUGINS = ["bearer", "key-header", "key-authz", "key-query", "key-cookie", "hdr-extra", "hdr-case", "oauth", "oauth-refresh"]
@@ -37,7 +37,7 @@ def cases(tier, seed):
     out = []
     B = 20
     for i in range(0, len(seqs), B):
-        out.append({"seqs": seqs[i:i + B]})
+        out.append({"seqs": seqs[i:i + B], "nested_everywhere": tier != "quick"})
     return out
 
 
@@ -145,12 +145,20 @@ def run_case(case):
                     for caller in (False, True, "empty-dict", "empty-list", "zero"):
                         for bt in (None, "bt"):
                             wraps = ["composite"] if len(seq) != 1 else ["direct", "composite"]
+                            # a CompositeAuth is itself a plugin: composites nested inside composites keep the flat composition order
+                            # (quick: under the plain transport configuration; thorough: under every one)
+                            if len(seq) >= 2 and (case.get("nested_everywhere") or (not defaults and bt is None)):
+                                wraps = wraps + ["nested-tail", "nested-head"]
                             for wrap in wraps:
                                 label = f"plugins={seq}|{wrap}|defaults={defaults}|request={req_expect if req_headers == req_expect else 'enum+int:' + str(req_expect)}|caller={caller}|bearer_token={bt}"
                                 if not seq:
                                     auth = None
                                 elif wrap == "direct":
                                     auth = make_plugin(seq[0], aplug)
+                                elif wrap == "nested-tail":
+                                    auth = abase.CompositeAuth(make_plugin(seq[0], aplug), abase.CompositeAuth(*[make_plugin(p, aplug) for p in seq[1:]]))
+                                elif wrap == "nested-head":
+                                    auth = abase.CompositeAuth(abase.CompositeAuth(*[make_plugin(p, aplug) for p in seq[:-1]]), make_plugin(seq[-1], aplug))
                                 else:
                                     auth = abase.CompositeAuth(*[make_plugin(p, aplug) for p in seq])
                                 tr = ht.HttpxTransport("http://h.test", auth=auth, bearer_token=bt, default_headers=dict(defaults) or None)
